@@ -20,6 +20,7 @@
  Rm memo          : every memoisation construct in the functions behind this property is keyed by everything it reads.
  Rp presence      : optional numeric fields are tested with `is None` / membership, never by truthiness (0 is a value).
  Rk field/key     : the parameter classes store every configuration entry under its own name (frozen rename table).
+ Rs sorted        : every numpy.interp abscissa is ascending by construction or by a recorded precondition.
 """
 import ast
 from fractions import Fraction
@@ -549,6 +550,15 @@ def rk_field_key(ctx):
     ctx.need('Rk.field-key', 20)
 
 
+def rs_sorted(ctx):
+    """Rs: every numpy.interp call behind this property interpolates over an abscissa that is ascending by construction or by a
+    recorded precondition (numpy.interp does not check)"""
+    from .common import interp_rule
+    repo = ctx.repo
+    interp_rule(ctx, 'Rs.sorted-abscissa', edfa(repo).all_funcs(), 'the amplifier ripple / DGT would be interpolated wrongly')
+    ctx.need('Rs.sorted-abscissa', 3)
+
+
 from ..memo import rule_for as _memo_rule
 
 RULES_MEMO = ('Rm.memo', _memo_rule('C04', 'the gain, NF or ASE of another operating point would be applied'))
@@ -559,4 +569,4 @@ from ..presence import rule_for as _presence_rule
 RULES_PRESENCE = ('Rp.presence', _presence_rule('C04', 'an amplifier setting of exactly 0 would be replaced by a default'))
 
 RULES = [('R8.dual-stage', r8_dual_stage), ('R1.ase', r1_ase), ('R2.order', r2_order), ('R3.clamp', r3_clamp), ('R4.nf', r4_nf), ('R5.exhaustive', r5_exhaustive),
-         ('R6.band', r6_band), ('R7.gain-profile', r7_gain_profile), RULES_MEMO, RULES_PRESENCE, ('Rk.field-key', rk_field_key)]
+         ('R6.band', r6_band), ('R7.gain-profile', r7_gain_profile), RULES_MEMO, RULES_PRESENCE, ('Rk.field-key', rk_field_key), ('Rs.sorted-abscissa', rs_sorted)]
